@@ -11,6 +11,7 @@ LEVEL = "exploration"
 ASSUMPTIONS = [
     "points are accepted when a global equilibrium among the phases listed for the system returns the matrix phase alone (acceptance is counted); local (single-phase) equilibria of pycalphad are trusted for the chemical potentials",
     "finite differences: central, step 1e-3 of each mole fraction, compared at 1e-4 of the largest entry (truncation (h/x)^2/3 ~ 3e-7; measured maximum deviation over 150 points 9.5e-6, median 3e-7)",
+    "the finite-difference comparison is skipped when forward and backward differences disagree by more than 1 % of the largest entry: the free energy is then not twice differentiable inside the stencil (Curie line of the magnetic model; found by the thorough tier at bcc Fe-27.5Cr, 950 K, where the one-sided increments of mu_Cr jump from 2.80 to 3.005 J/mol)",
     "tracer diffusivity = R*T*mobility is a differential between two code paths (thermodynamics module vs the diffusion module's computeMobility); systems described by diffusivity parameters instead of mobilities (Al-Zr) are only judged on the curvature and positivity clauses; compared at rtol 1e-5 (the two paths converge their own equilibria: measured deviation up to 7e-7 for dilute Cu-Ti)",
 ]
 R = 8.314
@@ -120,6 +121,15 @@ def check_point(case):
                 ok_fd = False
                 break
             dm = (mus[0] - mus[1]) / (2 * h)
+            # a kink inside the stencil (the magnetic model has a discontinuous second derivative on the Curie line, e.g. bcc Fe-27.5Cr
+            # at 950 K): forward and backward differences of a smooth function differ by O(h), here by several percent
+            fwd, bwd = (mus[0] - mu) / h, (mu - mus[1]) / h
+            dd = np.array([(fwd[alpha.index(ea)] - fwd[alpha.index(ref)]) - (bwd[alpha.index(ea)] - bwd[alpha.index(ref)]) for ea in sol_alpha])
+            cc = np.array([dm[alpha.index(ea)] - dm[alpha.index(ref)] for ea in sol_alpha])
+            if np.any(np.abs(dd) > 1e-2 * np.max(np.abs(cc))):
+                ok_fd = False
+                out.label("kink_inside_stencil")
+                break
             for a, ea in enumerate(sol_alpha):
                 FD[a, b] = dm[alpha.index(ea)] - dm[alpha.index(ref)]
         scale = float(np.max(np.abs(H)))
